@@ -1,5 +1,7 @@
 """C18 — data-channel stream ids (spec/DcIds.tla): TLC-simulated histories on both endpoints of real pairs."""
 import os
+import sys
+sys.path.insert(0, os.path.dirname(os.path.abspath(__file__)))
 import vlib
 
 
@@ -10,17 +12,11 @@ def run(ctx):
     sim = vlib.run_tlc(ctx, "DcIds", "DcIds_Sim", workers=1, simulate="num=%d" % nwalk, depth=10, timeout=600)
     if sim.rc != 0:
         raise vlib.NoVerdict("simulation failed: %s" % sim.error)
-    walks, cur = [], []
-    for v in sim.tag("VERIF_EDGE"):
-        e = v[0]
-        if e["f"]["n"] == 0 and cur:
-            walks.append(cur)
-            cur = []
-        cur.append(e["a"])
-    if cur:
-        walks.append(cur)
+    import sdp_common
+    walks = sdp_common.split_walks(sim)
     beh = []
-    for i, w in enumerate(walks):
+    ctx.rng.shuffle(walks)
+    for i, w in enumerate(walks[:(120 if quick else 1500)]):
         beh.append({"id": i, "steps": w, "burst": 3 if i % 3 == 0 else 0})
     ctx.log("%d histories" % len(beh))
     binary = vlib.go_build(ctx, "dcids")
